@@ -156,6 +156,29 @@ const CALIBRATION: &[(&str, bool, &str, bool, bool)] = &[
     ("@zq{} then @&(~1)?zq{}", true, "inter-ref-conflicting-modifiers", true, false), ("x @zq{} and @&zq{}", true, "redundant-ref", false, false), ("x @./znone{}", true, "recipe-not-found", false, false),
 ];
 
+/// Calibration runs in a SEPARATE process (`harness calibrate`, spawned by `calibrate_isolated`): the parses it makes must not
+/// become part of the history of the process whose behaviour is being judged (a process-wide cache filled by "whoever calls
+/// first" would otherwise be filled by the calibration, and the check would see a consistent — wrong — world).
+pub fn calibrate_isolated() -> Vec<String> {
+    let Ok(exe) = std::env::current_exe() else { return vec!["calibration skipped: current_exe unavailable".into()] };
+    let Ok(out) = std::process::Command::new(exe).arg("calibrate").output() else { return vec!["calibration skipped: cannot spawn the harness".into()] };
+    let mut notes = Vec::new();
+    for line in String::from_utf8_lossy(&out.stdout).lines() {
+        let parts: Vec<&str> = line.splitn(3, '\t').collect();
+        if parts.len() == 3 {
+            if let Ok(mut l) = LEARNED.write() { if !l.iter().any(|(t, _)| t == parts[0]) { l.push((parts[0].to_string(), parts[1].to_string())); } }
+            notes.push(parts[2].to_string());
+        }
+    }
+    notes
+}
+
+/// `harness calibrate`: prints `template<TAB>kind<TAB>note` for every reworded message learned
+pub fn calibrate_print() {
+    let notes = calibrate();
+    if let Ok(l) = LEARNED.read() { for ((t, k), n) in l.iter().zip(notes.iter()) { println!("{}\t{}\t{}", t.replace(['\t', '\n'], " "), k, n.replace(['\t', '\n'], " ")); } }
+}
+
 /// Learn the current wording of catalogued diagnostics (see above). Returns notes for the evidence.
 pub fn calibrate() -> Vec<String> {
     let mut notes = Vec::new();
